@@ -60,6 +60,7 @@ func (g *Gen) msgText() (text string, kind string) {
 	return t, "msg-valid"
 }
 
+var msgCLenRe = regexp.MustCompile(`(?i)\n(?:content-length|l)[ \t]*:[ \t]*(\d+)`)
 var msgNumberRe = regexp.MustCompile(`(?i)\n(?:content-length|l|expires|cseq)[ \t]*:[ \t]*(\d+)`)
 
 func capStr(r *Rng, max int) string {
@@ -238,6 +239,30 @@ func (g *Gen) genC01() {
 			cuts[k] += start
 		}
 		g.add(resumeCase("C01", msgHd(r), buf, start, cuts, flags, lastFlags, kind))
+	}
+	// numbers at the limits of their header (Content-Length: 2^24 and 9 digits; Expires / CSeq: 2^32 and 10 digits; leading
+	// zeros; 10 – 40 digits) inside a whole message, the stream cut at EVERY position inside the number (and one byte
+	// around it): the range checks of the resumed value parsers must answer like the one-shot ones
+	m := g.budget(300, 8000)
+	for i := 0; i < m; i++ {
+		ms := r.Msg(MsgOpts{LWS: r.P(40), Body: -1, CLen: -2, Reply: -1})
+		t := ms.Text
+		loc := msgCLenRe.FindStringSubmatchIndex(t)
+		if loc == nil || r.P(35) {
+			loc = msgNumberRe.FindStringSubmatchIndex(t)
+		}
+		if loc == nil {
+			continue
+		}
+		d := r.Digits()
+		t = t[:loc[2]] + d + t[loc[3]:]
+		lo, hi := loc[2]-1, loc[2]+len(d)+1
+		for c := lo; c <= hi && c < len(t); c++ {
+			if c < 1 {
+				continue
+			}
+			g.add(resumeCase("C01", msgHd(r), t, 0, []int{c, len(t)}, 0, 0, "msg-boundary-number-cut"))
+		}
 	}
 }
 
